@@ -17,6 +17,7 @@
 
 mod gens;
 mod oracle;
+mod surface;
 
 use crypto_bigint::{CheckedDiv, ConstChoice, ConstCtOption, DivVartime, Int, NonZero, Uint, Wrapping};
 use num_bigint::{BigInt, Sign};
@@ -27,7 +28,7 @@ use vmodel::*;
 pub fn spec() -> PropSpec {
     PropSpec {
         id: "C14",
-        rule: "cases: (dividend n, divisor d) pairs in two's-complement limbs: doc-example sized values, constructed n = ±(q·|d| + r) with r ∈ {0, 1, |d|−1, ⌊|d|/2⌋, random} and q ∈ {0, 1, 2, qmax, qmax−1, 2^k, random}, independent edge-shaped operands of both signs, |n| < |d|, d = ±1, n = MIN, d = MIN, MIN / −1, n = ±k·d + {0, ±1}, d = 0 (checked forms only), unsigned divisors ≥ 2^(B−1); every division form of the width pair is checked on each pair against the BigInt oracle. non-trivial: (sign(n) ≠ sign(d) as negative/non-negative and the truncated remainder ≠ 0) or n = MIN of its width or (signed divisor) d = MIN of its width; distinct by the limbs of n and d (per sub-check, i.e. per width pair and divisor signedness).",
+        rule: "cases: (dividend n, divisor d) pairs in two's-complement limbs: doc-example sized values, constructed n = ±(q·|d| + r) with r ∈ {0, 1, |d|−1, ⌊|d|/2⌋, random} and q ∈ {0, 1, 2, qmax, qmax−1, 2^k, random}, independent edge-shaped operands of both signs, |n| < |d|, d = ±1, n = MIN, d = MIN, MIN / −1, n = ±k·d + {0, ±1}, d = 0 (checked forms only), unsigned divisors ≥ 2^(B−1); every division form of the width pair is checked on each pair against the BigInt oracle. non-trivial: (sign(n) ≠ sign(d) as negative/non-negative and the truncated remainder ≠ 0) or n = MIN of its width or (signed divisor) d = MIN of its width; distinct by the limbs of n and d (per sub-check, i.e. per width pair and divisor signedness). surface/* sub-checks apply the same rule on the same generators to Checked<Int> (plus the none-operand flags), generic-function routes, divisors that went through a constant-time selection / another constructor (plus the decoy), and 5- / 7-limb widths.",
         assumptions: vec![
             "num-bigint magnitude division / multiplication is correct (independent implementation); the oracle re-asserts n = q*d + r, |r| < |d| and the sign rules on its own outputs for every case".into(),
             "bridging uses from_words / as_words only".into(),
@@ -542,5 +543,7 @@ fn subchecks(ctx: &Ctx) -> Vec<SubCheck> {
         eq_widths!(v, 8000; 6, 16);
         mixed_widths!(v, 5000; (16, 8), (8, 16), (16, 1), (1, 16), (6, 3), (3, 6));
     }
+    // API-surface audit (/verif/audit/A.md): forms, routes and widths reached only through a sibling before
+    v.extend(surface::subchecks(ctx));
     v
 }
